@@ -4,6 +4,7 @@ import (
 	"bytes"
 	"encoding/json"
 	"fmt"
+	"go/ast"
 	"go/token"
 	"os"
 	"strings"
@@ -81,6 +82,42 @@ func c16Check(in c16Input) (key, what string) {
 				}
 			}
 		}
+	case "repeat-extras":
+		// Restorer.Extras: the out-of-tree declaring nodes (the assignment the parser synthesises for a
+		// range clause) get the same positions on every run
+		var first string
+		for round := 0; round < in.Rounds; round++ {
+			fset := token.NewFileSet()
+			f, err := decorator.NewDecorator(fset).Parse(in.Srcs[0])
+			if err != nil {
+				return "", ""
+			}
+			r := decorator.NewRestorer()
+			r.Extras = true
+			af, err := r.RestoreFile(f)
+			if err != nil {
+				return "", ""
+			}
+			var sb strings.Builder
+			ast.Inspect(af, func(n ast.Node) bool {
+				if id, ok := n.(*ast.Ident); ok && id.Obj != nil {
+					if as, ok := id.Obj.Decl.(*ast.AssignStmt); ok {
+						fmt.Fprintf(&sb, "%s:%d ", id.Name, as.TokPos)
+						if len(as.Rhs) == 1 {
+							if u, ok := as.Rhs[0].(*ast.UnaryExpr); ok {
+								fmt.Fprintf(&sb, "op=%d ", u.OpPos)
+							}
+						}
+					}
+				}
+				return true
+			})
+			if round == 0 {
+				first = sb.String()
+			} else if sb.String() != first {
+				return "c16-nondeterministic", fmt.Sprintf("restoring with Extras gives different positions for the synthesised range assignments (round %d): %s vs %s", round, first, sb.String())
+			}
+		}
 	case "repeat":
 		var first string
 		for round := 0; round < in.Rounds; round++ {
@@ -125,8 +162,24 @@ func c16Prop(c *Ctx) {
 			c.Res.fail(key, what, in)
 		}
 	}
+	{
+		in := c16Input{Mode: "repeat-extras", Rounds: 40, Srcs: []string{"package a\n\nfunc F(xs []int) {\n\tfor a := range xs {\n\t\t_ = a\n\t}\n\tfor b := range xs {\n\t\t_ = b\n\t}\n\tfor c := range xs {\n\t\t_ = c\n\t}\n\tfor d, e := range xs {\n\t\t_, _ = d, e\n\t}\n}\n"}}
+		c.Res.Evaluations++
+		c.Res.hist("c16", "repeat-extras")
+		if key, what := c16Check(in); key != "" {
+			c.Res.fail(key, what, in)
+		}
+	}
 	for i := 0; i < c.N(120); i++ {
-		cfg := genImportConfig(c.Rng, false, false)
+		cfg := genImportConfig(c.Rng, i%3 == 0, false)
+		if i%3 == 0 {
+			// several unresolvable packages: the error must name the same one every time
+			for k, p := range cfg.Used {
+				if k%2 == 0 {
+					delete(cfg.Resolver, p)
+				}
+			}
+		}
 		in := c16Input{Mode: "repeat", Config: cfg, Rounds: 25}
 		c.Res.Evaluations++
 		b, _ := json.Marshal(cfg)
